@@ -364,13 +364,42 @@ def run(spec):
             cur = nxt
         if out.violations:
             break
+        # (e) a second restart from the same kind of checkpoint (same dimension, same number of pairs) started while the first one is still
+        # running - here from inside its objective, as a nested "what if" computation - must not disturb it
+        if npairs >= 1 and (k + int(P.spec["seed"])) % 3 == 0:
+            plain = restart(ck, k + 2)
+            other = probes.deep(ck)
+            # ... a checkpoint of the same shape with another history (the pairs in reverse order, halved: curvature kept)
+            from scipy.optimize import LbfgsInvHessProduct
+
+            other.hess_inv = LbfgsInvHessProduct(0.5 * np.array(ck.hess_inv.sk)[::-1].copy(), 0.5 * np.array(ck.hess_inv.yk)[::-1].copy())
+            fired = {"n": 0}
+
+            def on_f_nested(i, x):
+                if i == 0 and fired["n"] == 0:
+                    fired["n"] = 1
+                    probes.run_min(P, dict(base, maxiter=k + 1, x0_same_object=False), checkpoint=other, x0=np.array(other.x, dtype=float, copy=True))
+
+            nested = probes.run_min(P, dict(base, maxiter=k + 2), checkpoint=ck, x0=ck.x, hooks={"on_f": on_f_nested})
+            out.count("restarts_with_another_restart_nested_in_their_objective")
+            if plain.exc is None and (nested.exc is not None or not np.array_equal(nested.result.x, plain.result.x)
+                                      or not np.array_equal(nested.snap["sk"], plain.snap["sk"]) or not np.array_equal(nested.snap["yk"], plain.snap["yk"])):
+                out.violate("continuation_differs", f"{where}: a restart to iteration {k + 2} inside whose first objective evaluation another restart from a checkpoint of equal shape "
+                            f"checkpoint was run {'raised ' + repr(nested.exc) if nested.exc is not None else 'returns another x / other pairs than the same restart run alone'}",
+                            what="nested", **tags)
+                break
         # (d) reduced maxcor
         if npairs >= 2:
             m2 = 1 + (k % (npairs - 1)) if npairs > 2 else 1
             t = truncate(ck, m2)
-            ra = restart(ck, k + 1, maxcor=m2)
+            # the reduced memory size as users have it at hand: a Python int, or a NumPy integer scalar (signed or unsigned, e.g. read from a
+            # configuration array)
+            m2u = [m2, np.uint8(m2), np.int64(m2), np.uint32(m2), np.uint64(m2), np.int16(m2)][(k + int(P.spec["seed"])) % 6]
+            if not isinstance(m2u, int):
+                out.count("reduced_maxcor_given_as_numpy_integer")
+            ra = restart(ck, k + 1, maxcor=m2u)
             rb = restart(t, k + 1, maxcor=m2)
-            za = restart(ck, k, maxcor=m2)
+            za = restart(ck, k, maxcor=m2u)
             out.count("reduced_maxcor_checked")
             if ra.exc is not None or rb.exc is not None or za.exc is not None:
                 out.violate("restart_raised", f"{where}: restart with maxcor reduced to {m2} raised {(ra.exc or rb.exc or za.exc)!r}", what="reduced", **tags)
